@@ -178,6 +178,13 @@ def alphabet(world):
                             note("mint", eth=Decimal(e), mint=mint, vault=None, lp=lp)
                             return m.open_deposit_mint(Decimal(e), mint, None, POS if lp else None)
                         out.append(Op(f"odm[new,{e},{mc},{'lp' if lp else 'nolp'}]", odm, not (e == "1" and mc in ("half", "p90") and not lp), "mint"))
+        if free_lp and len(vaults) < 2:
+            def odm_small(c):
+                # a quarter ETH covers 1.5x of a debt worth a tenth of an ETH on its own; whether the vault reaches the 0.5 ETH minimum depends on its LP position
+                mint = dec(Fraction(1, 10) / sa.index_price_in_eth())
+                note("mint", eth=Decimal("0.25"), mint=mint, vault=None, lp=True)
+                return m.open_deposit_mint(Decimal("0.25"), mint, None, POS)
+            out.append(Op("odm[new,0.25,debt0.1eth,lp]", odm_small, True, "mint"))
         for i, vk in enumerate(vaults):
             v = m.vault[vk]
             for mc, f in (("near", 1 - Fraction(1, 10**4)), ("beyond", 1 + Fraction(1, 10**4)), ("half", Fraction(1, 2))):
@@ -238,6 +245,11 @@ def alphabet(world):
                 note("add_lp")
                 return um.add_liquidity_by_tick(lo, hi, Decimal(3), Decimal(25))
             out.append(Op("squni.add[in]", addlp, False, "add_lp"))
+
+            def addlp_tiny(c):
+                note("add_lp")
+                return um.add_liquidity_by_tick(lo, hi, Decimal("0.4"), Decimal(25))
+            out.append(Op("squni.add[in,tiny]", addlp_tiny, True, "add_lp"))
 
             def addlp_big(c):
                 note("add_lp")
@@ -465,7 +477,7 @@ class Oracle:
 
 
 # seeded non-initial states (label prefixes, replayed on the real objects): an LP position, vaults with LP collateral near / off the frontier
-ROOTS = ((), ("squni.add[in]",), ("squni.add[in]", "odm[new,1,p90,lp]"), ("squni.add[in]", "odm[new,1,near,lp]"), ("squni.add[in,big]", "odm[new,0,p90,lp]"), ("odm[new,1,near,nolp]",),
+ROOTS = ((), ("squni.add[in]",), ("squni.add[in,tiny]",), ("squni.add[in]", "odm[new,1,p90,lp]"), ("squni.add[in]", "odm[new,1,near,lp]"), ("squni.add[in,big]", "odm[new,0,p90,lp]"), ("odm[new,1,near,nolp]",),
          ("odm[new,3,p90,nolp]", "odm[new,0.51,near,nolp]"))
 
 
@@ -499,6 +511,8 @@ def main(run: Run):
             for root in ROOTS:
                 if scn.endswith("|no-osqth") and root and root[0].startswith("squni."):
                     continue  # no oSQTH to put into a pool position
+                if root == ("squni.add[in,tiny]",) and scn not in ("flat", "ne-step+30%"):
+                    continue  # the small-vault corner is explored in two scenarios
                 ctx, outs = kit.replay_history(world.build, alphabet(world), root)
                 if not all(o.ok for o in outs):
                     skipped.append((scn, start, root))  # e.g. an LP-only vault opened when the position is worth less than the 0.5 ETH minimum
